@@ -550,6 +550,7 @@ func (vfs *MemFS) OpenFile(name string, flag int, perm fs.FileMode) (avfs.File, 
 
 	at := int64(0)
 	om := avfs.ToOpenMode(flag)
+	absName, _ := vfs.Abs(name)
 
 	parent, child, pi, err := vfs.searchNode(name, slmEval)
 	if err != vfs.err.FileExists && !vfs.isNotExist(err) || !pi.IsLast() {
@@ -579,6 +580,7 @@ func (vfs *MemFS) OpenFile(name string, flag int, perm fs.FileMode) (avfs.File, 
 				nd:       child,
 				vfs:      vfs,
 				name:     name,
+				absName:  absName,
 				at:       at,
 				openMode: om,
 			}
@@ -645,6 +647,7 @@ func (vfs *MemFS) OpenFile(name string, flag int, perm fs.FileMode) (avfs.File, 
 		nd:       child,
 		vfs:      vfs,
 		name:     name,
+		absName:  absName,
 		at:       at,
 		openMode: om,
 	}
